@@ -24,8 +24,8 @@ FAM = {"q_lasts", "v_lasts", "betas", "rho_firsts"}  # per-link families
 class PrimWorld:
     """world for interpreting a primitive in isolation"""
 
-    def __init__(self, n1: bool):
-        self.env = E.Env({"K": n1})
+    def __init__(self, n1):
+        self.env = E.Env(n1 if isinstance(n1, dict) else {"K": n1})
         self.trace: list = []
         self.decisions: list = []
         self.assumptions: list = []
@@ -108,7 +108,15 @@ class PrimRun:
     alt_terms: list = field(default_factory=list)  # terms of the other python-level paths
 
 
-def arg_terms(prim: str, present: set, typ: Optional[str], scalar_rank: int = 0):
+def prim_env(prim: str, n1: bool) -> dict:
+    """segment counts: the speed-limited primitive is analysed on N = 4 with limited
+    segments 1 and 3 (or N = 1 with segment 0); everything else on abstract N >= 2 / N = 1"""
+    if prim == "links.controlled_Veq":
+        return {"K": 1, "K.vsl": 1} if n1 else {"K": 4, "K.vsl": 2}
+    return {"K": n1}
+
+
+def arg_terms(prim: str, present: set, typ: Optional[str], scalar_rank: int = 0, vsl_positions=(1, 3)):
     """symbolic arguments (TV) and the same as plain terms for the P-table"""
     tvs, terms = {}, {}
     group = prim.split(".")[0]
@@ -123,14 +131,14 @@ def arg_terms(prim: str, present: set, typ: Optional[str], scalar_rank: int = 0)
             terms[p] = None
             continue
         if p == "vsl":
-            tvs[p] = IndexSet("vsl", "K")
-            terms[p] = "vsl"
+            tvs[p] = list(vsl_positions)
+            terms[p] = list(vsl_positions)
             continue
         if group == "links" and p in SEG:
             t = E.V(p, "K")
             tvs[p] = TV(t, 1, False, f"argument {p}")
         elif group == "links" and p == "v_ctrl":
-            t = ("w", "v_ctrl", "K", "vsl")
+            t = E.V("v_ctrl", "K.vsl")
             tvs[p] = TV(t, 1, False, f"argument {p}")
         elif p in FAM:
             t = ("fam", "J", E.S(f"mu.{p}"))
@@ -171,13 +179,13 @@ def run_prim(prog: Program, impl: str, prim: str, present: set, typ, n1: bool,
     fi = prog.function(mod, f"{GROUP_CLS[group]}.{name}")
     mi = prog.modules[mod]
     where = f"{mi.relpath}:{fi.node.lineno} {fi.qualname}"
-    tvs, terms = arg_terms(prim, present, typ, scalar_rank)
+    tvs, terms = arg_terms(prim, present, typ, scalar_rank, (0,) if n1 else (1, 3))
     results = []
     todo = [()]
     events_all = []
     while todo:
         dec = todo.pop()
-        w = PrimWorld(n1)
+        w = PrimWorld(prim_env(prim, n1))
         w.decisions = list(dec)
         it = Interp(prog, w, lib_semantics=impl)
         # positional call in interface order (the element layer calls positionally)
@@ -261,9 +269,9 @@ def spec_term(prim: str, terms: dict):
     return f(**kw)
 
 
-def equal_terms(t1, t2, n1: bool, nz=None):
-    """position-wise equality; returns list of (pos, a, b) differences"""
-    env = E.Env({"K": n1})
+def equal_terms(t1, t2, n1, nz=None):
+    """position-wise equality; returns list of (pos, a, b) differences. n1: bool or env dict"""
+    env = E.Env(n1 if isinstance(n1, dict) else {"K": n1})
     nz = nz or prim_normalizer(False)
     try:
         return M.compare(t1, t2, env, nz)
